@@ -272,7 +272,7 @@ def labelWithGene (b : Bin) : String :=
 
 /-- `rangelabel.to_label`: `f"{chromosome}:{start + 1}-{end}"` -/
 def toLabel (b : Bin) : String :=
-  b.chrom ++ ":" ++ toString (b.s + Generated.LABEL_START_SHIFT) ++ "-" ++ toString b.e
+  b.chrom ++ ":" ++ toString (b.s + 1) ++ "-" ++ toString b.e
 
 def reservedCols : List String := ["chromosome", "start", "end", "gene", "label"]
 
